@@ -295,9 +295,14 @@ void MutexCase(Ctx& ctx) {
 // ------------------------------------------------------------------------------------------------
 // SharedMutex
 
-enum SLockForm { sLock, sLockShared, sGuard, sGuardShared, sTryLock, sTryLockShared, sTryGuard, sTryGuardShared, kSForms };
-const char* const kSLockName[] = {"Lock",    "LockShared",    "Guard",    "GuardShared",
-                                  "TryLock", "TryLockShared", "TryGuard", "TryGuardShared"};
+enum SLockForm {
+  sLock, sLockShared, sGuard, sGuardShared, sTryLock, sTryLockShared, sTryGuard, sTryGuardShared,
+  sDeferLock, sDeferLockShared, sDeferTry, sDeferTryShared, sAdopt, sAdoptShared, kSForms
+};
+const char* const kSLockName[] = {"Lock", "LockShared", "Guard", "GuardShared", "TryLock", "TryLockShared", "TryGuard",
+                                  "TryGuardShared", "deferred-guard.Lock", "deferred-shared-guard.Lock",
+                                  "deferred-guard.TryLock", "deferred-shared-guard.TryLock", "Lock+adopt-guard",
+                                  "LockShared+adopt-guard"};
 
 struct SWorld {
   std::atomic<int> writers{0};
@@ -309,6 +314,8 @@ struct SWorld {
   std::atomic<int> max_readers{0};
   long plain = 0;  // written by writers only, read by readers
   std::atomic<int> torn_read{0};
+  std::atomic<int> failed_try_owns{0};
+  std::atomic<int> guard_state_bad{0};
 };
 
 inline void EnterW(SWorld& w) {
@@ -363,9 +370,10 @@ void SharedMutexCase(Ctx& ctx) {
     for (int r = 0; r < rounds; ++r) {
       SRound rd;
       bool shared = ctx.rng.Below(4) >= writer_bias;
-      static const int wforms[] = {sLock, sGuard, sTryLock, sTryGuard, sLock, sGuard};
-      static const int rforms[] = {sLockShared, sGuardShared, sTryLockShared, sTryGuardShared, sLockShared, sGuardShared};
-      rd.form = shared ? rforms[ctx.rng.Below(6)] : wforms[ctx.rng.Below(6)];
+      static const int wforms[] = {sLock, sGuard, sTryLock, sTryGuard, sLock, sGuard, sDeferLock, sDeferTry, sAdopt};
+      static const int rforms[] = {sLockShared,    sGuardShared, sTryLockShared,   sTryGuardShared, sLockShared,
+                                   sGuardShared, sDeferLockShared, sDeferTryShared, sAdoptShared};
+      rd.form = shared ? rforms[ctx.rng.Below(9)] : wforms[ctx.rng.Below(9)];
       rd.cs_yields = ctx.rng.Below(3);
       rd.gap = ctx.rng.Below(3);
       rd.dtor = ctx.rng.Coin();
@@ -436,6 +444,109 @@ void SharedMutexCase(Ctx& ctx) {
           LeaveR(w);
           m.UnlockHereShared();
           break;
+        case sDeferLock: {
+          yaclib::UniqueGuard<M> g{m, std::defer_lock};
+          if (g.OwnsLock() || g.Mutex() != &m) {
+            w.guard_state_bad.fetch_add(1, kRlx);
+          }
+          co_await g.Lock();
+          if (!g.OwnsLock()) {
+            w.guard_state_bad.fetch_add(1, kRlx);
+          }
+          EnterW(w);
+          Jitter(rd.cs_yields);
+          LeaveW(w);
+          if (!rd.dtor) {
+            g.UnlockHere();
+            if (g.OwnsLock()) {
+              w.guard_state_bad.fetch_add(1, kRlx);
+            }
+          }
+        } break;
+        case sDeferLockShared: {
+          yaclib::SharedGuard<M> g{m, std::defer_lock};
+          co_await g.Lock();
+          if (!g.OwnsLock()) {
+            w.guard_state_bad.fetch_add(1, kRlx);
+          }
+          EnterR(w);
+          Jitter(rd.cs_yields);
+          LeaveR(w);
+          if (!rd.dtor) {
+            g.UnlockHere();
+          }
+        } break;
+        case sDeferTry: {
+          // a failed Guard::TryLock() must leave the guard not owning (else its destructor releases a foreign lock)
+          yaclib::UniqueGuard<M> g{m, std::defer_lock};
+          while (!g.TryLock()) {
+            w.try_fail.fetch_add(1, kRlx);
+            if (g.OwnsLock()) {
+              w.failed_try_owns.fetch_add(1, kRlx);
+              (void)g.Release();
+              g = yaclib::UniqueGuard<M>{m, std::defer_lock};
+            }
+            co_await yaclib::On(*pool);
+          }
+          EnterW(w);
+          Jitter(rd.cs_yields);
+          LeaveW(w);
+          if (!rd.dtor) {
+            // hand the lock back through Release(): the guard forgets it, the mutex is unlocked by hand
+            M* pm = g.Release();
+            if (pm != &m || g.OwnsLock()) {
+              w.guard_state_bad.fetch_add(1, kRlx);
+            }
+            m.UnlockHere();
+          }
+        } break;
+        case sDeferTryShared: {
+          yaclib::SharedGuard<M> g{m, std::defer_lock};
+          while (!g.TryLock()) {
+            w.try_fail.fetch_add(1, kRlx);
+            if (g.OwnsLock()) {
+              w.failed_try_owns.fetch_add(1, kRlx);
+              (void)g.Release();
+              g = yaclib::SharedGuard<M>{m, std::defer_lock};
+            }
+            co_await yaclib::On(*pool);
+          }
+          EnterR(w);
+          Jitter(rd.cs_yields);
+          LeaveR(w);
+          if (!rd.dtor) {
+            g.UnlockHere();
+          }
+        } break;
+        case sAdopt: {
+          co_await m.Lock();
+          yaclib::UniqueGuard<M> g0{m, std::adopt_lock};
+          yaclib::UniqueGuard<M> g{std::move(g0)};  // ownership travels with the move; g0's destructor must not unlock
+          if (!g.OwnsLock() || g0.OwnsLock()) {
+            w.guard_state_bad.fetch_add(1, kRlx);
+          }
+          EnterW(w);
+          Jitter(rd.cs_yields);
+          LeaveW(w);
+          if (!rd.dtor) {
+            g.UnlockHere();
+          }
+        } break;
+        case sAdoptShared: {
+          co_await m.LockShared();
+          yaclib::SharedGuard<M> g0{m, std::adopt_lock};
+          yaclib::SharedGuard<M> g;
+          g = std::move(g0);  // move-assignment swaps
+          if (!g.OwnsLock() || g0.OwnsLock()) {
+            w.guard_state_bad.fetch_add(1, kRlx);
+          }
+          EnterR(w);
+          Jitter(rd.cs_yields);
+          LeaveR(w);
+          if (!rd.dtor) {
+            g.UnlockHere();
+          }
+        } break;
         case sTryGuard:
           for (;;) {
             auto g = m.TryGuard();
@@ -489,6 +600,11 @@ void SharedMutexCase(Ctx& ctx) {
             "%d observations of a writer overlapping another holder", w.bad_overlap.load(kRlx));
   ctx.Check(w.grants.load(kRlx) == total, "granted-exactly-once", "C15", "%ld requests, %ld grants, expected %ld",
             w.requests.load(kRlx), w.grants.load(kRlx), total);
+  ctx.Check(w.failed_try_owns.load(kRlx) == 0, "failed-try-owns", "C15",
+            "%d failed Guard::TryLock() attempts left the guard owning the lock", w.failed_try_owns.load(kRlx));
+  ctx.Check(w.guard_state_bad.load(kRlx) == 0, "guard-ownership-flag", "C15",
+            "%d observations of a guard whose OwnsLock()/Mutex() disagrees with what it was just asked to do",
+            w.guard_state_bad.load(kRlx));
   // everybody released: both modes must be available
   bool wl = m.TryLock();
   ctx.Check(wl, "not-free-at-end", "C15", "TryLock fails although every holder released");
